@@ -324,6 +324,11 @@ let cons_cmd c cmd t seq =
     mTn fo cols (nat_of_int (List.length c.crows)) in
   let spec_try f = if spec_ok then (try f () with Not_found | Failure _ | Invalid_argument _ -> ()) in
   (* velocity consistent with the constraints: qd - G^T (G G^T)^-1 G qd, with the model's own G *)
+  (* the velocity made consistent with the constraints is an INPUT of the compared routines: both sides use the
+     implementation's projection (an ill-conditioned projection would otherwise differ by 1e-7 between the two
+     sides and the difference would be attributed to the library) *)
+  let feas_qd seq (p : float list) : float list =
+    let v = impl_or seq "qd_feas" p in line "o" seq "qd_feas" (fun () -> ovec v); v in
   let project q qd =
     let w = ukc_q fo c.m c.m.ws q in
     let g = cons_G fo c.m w c.crows in
@@ -356,7 +361,7 @@ let cons_cmd c cmd t seq =
   | "csys" ->
     let feas = (t.t.(t.i) = "feas") in if feas then ignore (str t);
     let q = vec t in let qd0 = vec t in let _tau = vec t in let fe = fext t in
-    let qd = if feas then project q qd0 else qd0 in
+    let qd = if feas then feas_qd seq (project q qd0) else qd0 in
     let (w, sy) = calc_constrained_system_variables fo m m.ws q qd c.crows true fe in
     setw c w;
     line "o" seq "H" (fun () -> omat sy.cH); line "o" seq "C" (fun () -> ovec sy.cC);
@@ -373,7 +378,7 @@ let cons_cmd c cmd t seq =
     let _meth = str t in
     let feas = (t.t.(t.i) = "feas") in if feas then ignore (str t);
     let q = vec t in let qd0 = vec t in let tau = vec t in let fe = fext t in
-    let qd = if feas then project q qd0 else qd0 in
+    let qd = if feas then feas_qd seq (project q qd0) else qd0 in
     let ((w, sy), sol) = forward_dynamics_constraints fo m m.ws q qd tau c.crows fe in
     setw c w;
     (match sol with
@@ -400,7 +405,7 @@ let cons_cmd c cmd t seq =
     let feas = ref false and feasacc = ref false in
     while t.t.(t.i) = "feas" || t.t.(t.i) = "feasacc" do (if str t = "feas" then feas := true else feasacc := true) done;
     let q = vec t in let qd0 = vec t in let qdes0 = vec t in let fe = fext t in
-    let qd = if !feas then project q qd0 else qd0 in
+    let qd = if !feas then feas_qd seq (project q qd0) else qd0 in
     let nc = List.length c.crows in
     let qdes = if !feasacc then begin
         let ((_, sy), _) = forward_dynamics_constraints fo m m.ws q qd (zeros n_qd) c.crows fe in
